@@ -5,7 +5,7 @@
 // Symbolic: the grammar entry point, a string of N tokens from that entry's alphabet (every token class the sub-grammar mentions plus an undeclared
 // identifier, a type name and a foreign token), the back end; for the lexer N arbitrary bytes.
 // Oracle: the call returns or throws something derived from std::exception, within the instruction budget; all memory accesses valid (engine).
-#include "docdump.h"
+#include "xmlmodel.h"
 
 static const char* DECLS =
     "int i; int j; clock x; bool b; double d; chan c; chan ca[2]; int arr[3]; typedef int[0,3] T_t; struct { int f; int g; } r; const int K = 2;\n"
@@ -228,6 +228,38 @@ extern "C" void harness_semantic_errors()  /* vf: tier=quick bounds=60_erroneous
     vf_assume(!old || (en.part != S_SELECT && en.part != S_SYNC && en.part != S_PROBABILITY));
     vf_note(en.name); vf_note(SNIPS[k].text);
     run_document_backend(fx, en, SNIPS[k].text);
+    vf_reach("end");
+}
+
+// a template declared dynamic and then defined with another parameter list (longer, shorter, other names or types), through both input formats
+extern "C" void harness_dynamic_templates()  /* vf: tier=quick bounds=dynamic_template_declared_with_one_of_5_parameter_lists_and_defined_with_one_of_7(longer,shorter,renamed,retyped,by_reference)_x_textual_and_XML_input_x_spawned_or_not reach=end */
+{
+    static const char* DECLP[] = {"", "int a", "int a, int b", "const int a", "int &a"};
+    static const char* DEFP[] = {"", "int a", "int a, int b", "int b", "bool a", "int a, int b, int c", "int &a, clock &x"};
+    int dp = vf_pick("!declared", 5), fp = vf_pick("!defined", 7), xml = vf_pick("!xml", 2), spawn = vf_pick("!spawned", 2);
+    std::string decl = std::string("int g; dynamic DT(") + DECLP[dp] + ");";
+    std::string upd = spawn ? std::string("spawn DT(") + (dp == 0 ? "" : dp == 2 ? "1, 2" : dp == 4 ? "g" : "1") + ")" : "g = 1";
+    Document doc;
+    vf_budget(BUDGET);
+    const char* outcome = "returned";
+    try {
+        if (xml) {
+            MModel mm; mm.gdecl = decl; mm.system = "system M;";
+            MTemplate dt; dt.name = "DT"; dt.params = DEFP[fp]; dt.locs = {MLoc{"id0", "A"}};
+            MTemplate mt; mt.name = "M"; mt.locs = {MLoc{"id1", "S"}}; MEdge e; e.src = 0; e.dst = 0; e.assign = upd; mt.edges = {e};
+            mm.templs = {dt, mt};
+            XmlDoc d = render_xml(mm);
+            parse_xml(d, &doc);
+        } else {
+            std::string x = decl + "\nprocess DT(" + DEFP[fp] + ") { state A; init A; }\nprocess M() { state S; init S; trans S -> S { assign " + upd + "; }; }\nsystem M;\n";
+            vf_note(x.c_str());
+            parse_XTA(x.c_str(), &doc, true);
+        }
+        if (!doc.has_errors()) (void)dump_document(doc);
+    } catch (std::exception&) { outcome = "std::exception"; }
+    vf_budget(-1);
+    vf_note(outcome); vf_notei("errors", (long)doc.get_errors().size());
+    assert_invariants(doc, !strcmp(outcome, "returned"));
     vf_reach("end");
 }
 
